@@ -301,13 +301,32 @@ func genSymbols(r *gen.Rand, content []byte, max int, bad bool) ([]index.Documen
 var langs = []string{"Go", "Python", "", "C++", "Zoekt-Lang-é"}
 var fileNames = []string{"main.go", "a/b/c.py", "README.md", "é/日本.txt", "vendor/x/y.go", "foo_test.go", ".gitignore", "Makefile", "x", "dir/sp ace.c", "a\xffb.txt"}
 
+// branchPool: branch names shared by all generated repositories, so that repositories of one compound shard have
+// branches of the same name at *different* positions of their branch lists (each repository takes a prefix of the pool
+// and, half of the time, shuffles it).
+var branchPool = func() []string {
+	p := []string{"main", "dev", "release", "stable", "feature/x"}
+	for i := len(p); i < 64; i++ {
+		p = append(p, fmt.Sprintf("b%d", i))
+	}
+	return p
+}()
+
 func genRepo(r *gen.Rand, name string) repoSpec {
 	rp := repoSpec{Name: name, ID: uint32(1 + r.Intn(1000))}
 	nb := gen.Pick(r, []int{0, 1, 1, 2, 3, 5, 31, 32, 33, 63, 64})
-	for i := 0; i < nb; i++ {
-		rp.Branches = append(rp.Branches, fmt.Sprintf("b%d", i))
+	rp.Branches = append(rp.Branches, branchPool[:nb]...)
+	switch r.Intn(4) {
+	case 0, 1:
+		gen.Shuffle(r, rp.Branches)
+	case 2: // rotate: every shared name moves
+		if nb > 1 {
+			k := 1 + r.Intn(nb-1)
+			rp.Branches = append(append([]string(nil), rp.Branches[k:]...), rp.Branches[:k]...)
+		}
 	}
-	if nb > 0 && r.Chance(1, 3) {
+	if nb > 0 && r.Chance(1, 4) {
+		// zoekt reads the query branch "HEAD" as "the first branch", so the name HEAD is only ever given to the first one
 		rp.Branches[0] = "HEAD"
 	}
 	ns := gen.Pick(r, []int{0, 0, 1, 2, 3})
@@ -315,6 +334,22 @@ func genRepo(r *gen.Rand, name string) repoSpec {
 		rp.SubRepos = append(rp.SubRepos, gen.Pick(r, []string{"sub", "a/b", "zz", "Sub", "é"})+fmt.Sprint(i))
 	}
 	return rp
+}
+
+// sharedBranchAtDifferentIndex: some branch name occurs in two of the repositories at different positions
+func sharedBranchAtDifferentIndex(repos []repoDocs) bool {
+	pos := map[string]int{}
+	for _, rd := range repos {
+		for i, b := range rd.Repo.Branches {
+			if j, ok := pos[b]; ok && j != i {
+				return true
+			}
+			if _, ok := pos[b]; !ok {
+				pos[b] = i
+			}
+		}
+	}
+	return false
 }
 
 // genDoc: one document for repo rp; startRune = runes of the contents before it (to aim at the sampling boundaries)
